@@ -21,24 +21,30 @@ const vDrainTimeout = 5 * time.Second
 
 // vDrain reads a result stream to its end; closed=false when it did not close in time.
 func vDrain(ch chan storage.Stream[storage.ListResult]) (ids []uuid.UUID, errs []string, closed bool) {
+	ids, _, errs, closed = vDrainFull(ch)
+	return ids, errs, closed
+}
+
+func vDrainFull(ch chan storage.Stream[storage.ListResult]) (ids []uuid.UUID, full []storage.ListResult, errs []string, closed bool) {
 	tm := time.NewTimer(vDrainTimeout)
 	defer tm.Stop()
 	for {
 		select {
 		case e, ok := <-ch:
 			if !ok {
-				return ids, errs, true
+				return ids, full, errs, true
 			}
 			if e.Err != nil {
 				errs = append(errs, e.Err.Error())
 			} else {
 				ids = append(ids, e.Result.ID)
+				full = append(full, e.Result)
 			}
 			if len(ids)+len(errs) > 10000 {
-				return ids, errs, false
+				return ids, full, errs, false
 			}
 		case <-tm.C:
-			return ids, errs, false
+			return ids, full, errs, false
 		}
 	}
 }
@@ -223,8 +229,30 @@ func (c *vCase) drain(what, arg string, ch chan storage.Stream[storage.ListResul
 		c.bad("C15", what+" returned no stream", arg)
 		return nil, false
 	}
-	ids, errs, closed := vDrain(ch)
+	ids, full, errs, closed := vDrainFull(ch)
 	c.count("streams_drained")
+	// what a result says about a plan is what Read says about it: the group and the status are the keys Search filters
+	// on (a search record that carries another group or status is found, or missed, by the wrong searches)
+	for i, r := range full {
+		if i >= 3 {
+			break
+		}
+		got, rerr := c.be.v.Read(vCtx, r.ID)
+		if rerr != nil || got == nil {
+			continue // a listed plan that cannot be read is reported by the comparison of the id lists
+		}
+		if r.GroupID != got.GroupID {
+			c.bad("C15", what+": a result carries a group id that is not the stored one", fmt.Sprintf("%s: Read says %v, the result %v", arg, got.GroupID, r.GroupID))
+		}
+		if got.State != nil && (r.State == nil || r.State.Status != got.State.Status) {
+			rs := "no state"
+			if r.State != nil {
+				rs = r.State.Status.String()
+			}
+			c.bad("C15", what+": a result carries a status that is not the stored one", fmt.Sprintf("%s: Read says %v, the result %s", arg, got.State.Status, rs))
+		}
+		c.count("result_fields_compared")
+	}
 	if !closed {
 		c.bad("C15", what+": the result stream is never closed", fmt.Sprintf("%s: %d results, then nothing for %v", arg, len(ids), vDrainTimeout))
 		c.stuck = true
